@@ -126,6 +126,22 @@ def run(ctx):
             c["labels"] = labels
             c["spreads"] = [ctx.rng.choice([0, 1, 1, 2, 3, ctx.rng.randint(0, 50)]) for _ in range(c["K"])]
             c["seed"] = ctx.rng.randrange(2 ** 31)
+            # value classes of the spreads a ranking must get right: NEAR ties (distinct doubles a relative 2^-40 .. 2^-30
+            # apart - equal in single precision, equal to any "tolerance"), and spreads far outside the single-precision
+            # range whose squares are still ordinary doubles (covariances of data in very small / very large units)
+            r_cls = pyrandom.Random(c["seed"] ^ 0x5EED)
+            u = r_cls.random()
+            if u < 0.12:
+                base = float(r_cls.randint(1, 50))
+                js = r_cls.sample(range(0, 1 << 10), c["K"])
+                c["spreads"] = [base * (1.0 + j * 2.0 ** -40) for j in js]
+                c["spread_class"] = "near-ties"
+            elif u < 0.18:
+                c["spreads"] = [float(x) * 1e-55 for x in r_cls.sample(range(1, 60), c["K"])] if c["K"] < 59 else c["spreads"]
+                c["spread_class"] = "tiny"
+            elif u < 0.24:
+                c["spreads"] = [float(x) * 1e45 for x in r_cls.sample(range(1, 60), c["K"])] if c["K"] < 59 else c["spreads"]
+                c["spread_class"] = "huge"
 
     lines = []
     impl = []
@@ -233,6 +249,8 @@ def run(ctx):
         lines.append(f"repop {K} {m} {show_list(spreads, lambda x: frac_str(Fraction(x)))} {show_list(order_for_model)} "
                      f"{show_list([d[1] for d in draws], lambda l: show_list(l), ';')} {show_list(labels)}")
         ctx.count(f"m={m}" if m <= 3 else "m>3")
+        if c.get("spread_class") and len(needy) >= 1 and len(donors_ranked) >= 2:
+            ctx.count("ranked_donors_with_spreads:" + c["spread_class"])
         ctx.case((tuple(c["sizes"]) if "sizes" in c else tuple(labels), m, tuple(spreads)), nontrivial=bool(needy),
                  sample={"K": K, "m": m, "sizes": sizes, "spreads": spreads, "donors_used": used,
                          "error": err is not None} if needy and len(ctx.samples) < 5 and used else None)
